@@ -432,6 +432,49 @@ theorem mem_removeUserAllO (s : Reg) (r r' : RegId) (k' : Name) (u : Option User
 @[simp] theorem removeUsageQT_eq (s : Reg) (r : RegId) (k : Option Name) (u : User) : removeUsage?T s r k u = removeUsageO s r k u := rfl
 @[simp] theorem demandReg_repaired (obj : Bool) : demandReg repaired obj = .pattern := by cases obj <;> rfl
 
+/-! ### releasing a user from a list of records -/
+@[simp] theorem releaseAll_nodes (s : Reg) (r : RegId) (ks : List Name) (u : User) : (releaseAll s r ks u).nodes = s.nodes := by
+  unfold releaseAll; exact foldl_removeUsageT_frame (fun x => x.nodes) (fun a k => removeUsageT_nodes a r k u) _ s
+@[simp] theorem releaseAll_links (s : Reg) (r : RegId) (ks : List Name) (u : User) : (releaseAll s r ks u).links = s.links := by
+  unfold releaseAll; exact foldl_removeUsageT_frame (fun x => x.links) (fun a k => removeUsageT_links a r k u) _ s
+@[simp] theorem releaseAll_patterns (s : Reg) (r : RegId) (ks : List Name) (u : User) : (releaseAll s r ks u).patterns = s.patterns := by
+  unfold releaseAll; exact foldl_removeUsageT_frame (fun x => x.patterns) (fun a k => removeUsageT_patterns a r k u) _ s
+@[simp] theorem releaseAll_curves (s : Reg) (r : RegId) (ks : List Name) (u : User) : (releaseAll s r ks u).curves = s.curves := by
+  unfold releaseAll; exact foldl_removeUsageT_frame (fun x => x.curves) (fun a k => removeUsageT_curves a r k u) _ s
+@[simp] theorem releaseAll_sources (s : Reg) (r : RegId) (ks : List Name) (u : User) : (releaseAll s r ks u).sources = s.sources := by
+  unfold releaseAll; exact foldl_removeUsageT_frame (fun x => x.sources) (fun a k => removeUsageT_sources a r k u) _ s
+@[simp] theorem releaseAll_controls (s : Reg) (r : RegId) (ks : List Name) (u : User) : (releaseAll s r ks u).controls = s.controls := by
+  unfold releaseAll; exact foldl_removeUsageT_frame (fun x => x.controls) (fun a k => removeUsageT_controls a r k u) _ s
+@[simp] theorem releaseAll_typed (s : Reg) (r : RegId) (ks : List Name) (u : User) : (releaseAll s r ks u).typed = s.typed := by
+  unfold releaseAll; exact foldl_removeUsageT_frame (fun x => x.typed) (fun a k => removeUsageT_typed a r k u) _ s
+@[simp] theorem releaseAll_nextUid (s : Reg) (r : RegId) (ks : List Name) (u : User) : (releaseAll s r ks u).nextUid = s.nextUid := by
+  unfold releaseAll; exact foldl_removeUsageT_frame (fun x => x.nextUid) (fun a k => removeUsageT_nextUid a r k u) _ s
+
+theorem mem_releaseAll (s : Reg) (r r' : RegId) (ks : List Name) (k' : Name) (u x : User) :
+    x ∈ ulook ((releaseAll s r ks u).usage r') k' ↔ x ∈ ulook (s.usage r') k' ∧ ¬(r' = r ∧ k' ∈ ks ∧ x = u) := by
+  unfold releaseAll; exact mem_foldl_removeUsageT ks s r r' k' u x
+
+theorem mem_demandNames (l : List (Option Name × Bool)) (p : Name) : p ∈ demandNames l ↔ ∃ d ∈ l, d.1 = some p := by
+  unfold demandNames; simp [List.mem_filterMap]
+
+@[simp] theorem repaired_demandsSync : repaired.demandsSync = true := rfl
+
+/-- a pattern is dropped only when no remaining entry names it -/
+theorem droppedPat_spec (l : List (Option Name × Bool)) (idx : Nat) (p : Name) (h : droppedPat l idx = some p) :
+    ∀ d ∈ l.eraseIdx idx, d.1 ≠ some p := by
+  unfold droppedPat at h
+  split at h
+  · rename_i q _
+    split at h
+    · cases h
+    · rename_i hn
+      cases h
+      intro d hd hq
+      apply hn
+      rw [List.any_eq_true]
+      exact ⟨d, hd, by simpa using hq⟩
+  · cases h
+
 /-! ### `set_curve_type` of the repaired code -/
 @[simp] theorem setCurveTypeR_nodes (s : Reg) (k : Name) (t : CurveType) : (setCurveType repaired s k t).nodes = s.nodes := by rw [setCurveType_repaired]; split <;> rfl
 @[simp] theorem setCurveTypeR_links (s : Reg) (k : Name) (t : CurveType) : (setCurveType repaired s k t).links = s.links := by rw [setCurveType_repaired]; split <;> rfl
